@@ -148,7 +148,9 @@ func (c *Ctx) Undecided(format string, a ...interface{}) {
 // Floor aborts when a mass rule matched fewer instances than the confirmed count
 // allows (vacuity guard).
 func (c *Ctx) Floor(rule string, got, confirmed int) {
-	min := confirmed * 8 / 10
+	// a tenth of the instances confirmed by hand: consolidating repeated code into helpers legitimately
+	// removes most instances of a per-site rule; only a rule that matches (almost) nothing is vacuous
+	min := confirmed / 10
 	if min < 1 {
 		min = 1
 	}
